@@ -125,3 +125,33 @@ Definition Inv (s : pstate) : Prop := inv (pst_ s) (pparent s) (ptape s).
    ParseOpen for a state that will *)
 Definition mu (s : pstate) : nat :=
   2 * length (pdata s) + match pst_ s with SKvs | SOpen => 1 | _ => 0 end.
+
+(* ---- scalars are slices of the input, in increasing start order (I6) ---- *)
+Definition scalar_bytes (x : ttok) : option bytes :=
+  match x with
+  | TUnquoted s | TQuoted s | TParameter s | TUndefinedParameter s | THeader s => Some s
+  | _ => None
+  end.
+
+(* s = input[a .. a+|s|) *)
+Definition slice_at (input : bytes) (a : nat) (s : bytes) : Prop :=
+  a + length s <= length input /\ firstn (length s) (skipn a input) = s.
+
+(* [scalars input lo l hi]: the scalar tokens of l (Unquoted, Quoted, Parameter,
+   UndefinedParameter, Header), in tape order, are slices of input at start offsets
+   lo <= a1 < a2 < .. < an < hi.  (A quoted scalar's slice is its content, without the quotes; a
+   parameter's is its name.) *)
+Inductive scalars (input : bytes) : nat -> ttape -> nat -> Prop :=
+| sc_nil : forall lo hi, lo <= hi -> scalars input lo [] hi
+| sc_scalar : forall lo hi x s a r,
+    scalar_bytes x = Some s -> lo <= a -> slice_at input a s ->
+    scalars input (S a) r hi -> scalars input lo (x :: r) hi
+| sc_other : forall lo hi x r,
+    scalar_bytes x = None -> scalars input lo r hi -> scalars input lo (x :: r) hi.
+
+Definition scalars_in_input (input : bytes) (t : ttape) : Prop :=
+  exists hi, scalars input 0 t hi.
+
+(* loop invariant for I6: data is a suffix of the input and every scalar starts before it *)
+Definition Inv2 (input : bytes) (d : bytes) (t : ttape) : Prop :=
+  exists pre, input = pre ++ d /\ scalars input 0 t (length pre).
